@@ -53,8 +53,9 @@ def obligations(tier):
         obs.append(Ob(f"C04.ad.{f[:-3]}", "X", what + " (reference: index loops, not str.strip)", ["ceos_alos2.datatypes:" + {"ascii_int_ok": "AsciiInteger", "ascii_float_ok": "AsciiFloat",
                       "padded_string_ok": "PaddedString"}[f] + "._decode"], bounds=f"forall ASCII strings |s| <= {maxlen}", outside="CPython int()/float() (uninterpreted)",
                       harness="harness/h_adapters.py", func=f, params={"maxlen": maxlen}, timeout=to))
-    obs.append(Ob("C04.ad.complex", "X", "AsciiComplex: first field + 1j * second field", ["ceos_alos2.datatypes:AsciiComplex._decode"], bounds="opaque field values",
-                  harness="harness/h_adapters.py", func="ascii_complex_ok", timeout=to))
+    obs.append(Ob("C04.ad.complex", "E", "AsciiComplex: real part = first field, imaginary part = second field, each kept as it is (NaN for a blank half, +-inf, -0.0)",
+                  ["ceos_alos2.datatypes:AsciiComplex._decode"], bounds="concrete enumeration of 8 x 8 IEEE value classes incl. NaN, +-inf, +-0.0 (CrossHair's own complex() model composes "
+                  "a + b*1j and cannot be used here); through the real construct parser on ASCII text", call="props.c04:ob_complex"))
     obs += plumb_obligations("C04", ALL if tier == "thorough" else ALL, LED_FUNCS, to,
                              "every location under /metadata (group path, variable, dimension, unit, attribute) carries exactly its pinned source field - for all field values")
     obs += [
@@ -71,3 +72,21 @@ def validate_stubs():
     from vlib import layout
 
     return {"layout_interpreter_vs_synth_leaves": layout.conformance()}
+
+
+def ob_complex(tier):
+    from ceos_alos2.datatypes import AsciiComplex
+
+    vals = [("0.0", 0.0), ("-0.0", -0.0), ("1.5", 1.5), ("-2.5E-30", -2.5e-30), ("inf", float("inf")), ("-inf", float("-inf")), ("", float("nan")), ("3.0E+38", 3.0e38)]
+    parser = AsciiComplex(32)
+    bad = []
+    for ta, a in vals:
+        for tb, b in vals:
+            got = parser.parse((ta.rjust(16) + tb.rjust(16)).encode())
+            if not isinstance(got, complex) or repr(got.real) != repr(a) or repr(got.imag) != repr(b):
+                bad.append({"real text": ta, "imaginary text": tb, "got": repr(got)})
+    res = {"verdict": "violated" if bad else "discharged", "queries": len(vals) ** 2, "replays": len(vals) ** 2}
+    if bad:
+        res["cex"] = bad[:4]
+        res["finding_key"] = "C04.ad.complex:" + ";".join(f"{b['real text']}|{b['imaginary text']}" for b in bad[:4])
+    return res
